@@ -274,6 +274,9 @@ class AbstractTAP(AbstractScriptedAgent):
         :type timestep: int
         :rtype bool
         """
+        if not self.history:
+            # first turn of the episode: there is no previous action that could have failed
+            return True
         if self.history[timestep].response.status != "success":
             self.logger.info(
                 f"{self.config.ref} has failed to successfully carry out {self.current_kill_chain_stage.name}"
